@@ -269,6 +269,19 @@ func (u *Unit) heapGet(st *State, name string, elem Sort) *Term {
 	st.heap[name] = t
 	u.mapSorts[name] = elem
 	u.linkBase(st, name, t)
+	if st.epoch == 0 && elem == SSlice && strings.HasPrefix(name, "E!") {
+		// well-formed entry heap: a slice stored in a slice of slices at unit entry
+		// refers to an array that existed then (what a load states for one element,
+		// stated for all so that quantified contracts over s[i][j] can use it)
+		key := "entryborn!" + name
+		if !u.ctx.declared[key] {
+			u.ctx.declared[key] = true
+			r := &Term{"r!q", SRef}
+			i := &Term{"i!q", SInt}
+			el := Select(Select(t, r), i)
+			u.ctx.Axiom(Forall([]Binder{{"r!q", SRef}, {"i!q", SInt}}, Lt(App(SInt, "birth", sarr(el)), u.ctx.Const("now0", SInt)), el))
+		}
+	}
 	return t
 }
 
@@ -477,7 +490,32 @@ type subOrigin struct {
 
 // loadVal loads a value of Go type t stored at pointer p (struct pointer /
 // element pointer / heap cell).
+func (u *Unit) smallArray(t types.Type) (*types.Array, bool) {
+	if u.isOpaque(t) {
+		return nil, false
+	}
+	at, ok := types.Unalias(t).Underlying().(*types.Array)
+	if !ok || at.Len() > 16 {
+		return nil, false
+	}
+	if _, scalar := u.sortOf(at.Elem()); !scalar {
+		return nil, false
+	}
+	if _, isArr := types.Unalias(at.Elem()).Underlying().(*types.Array); isArr {
+		return nil, false
+	}
+	return at, true
+}
+
 func (u *Unit) loadVal(st *State, t types.Type, p *Term) Val {
+	if at, ok := u.smallArray(t); ok {
+		// a small array value: its elements, read one by one
+		av := &StructVal{T: t}
+		for i := int64(0); i < at.Len(); i++ {
+			av.Fields = append(av.Fields, u.loadVal(st, at.Elem(), mkptr(parr(p), Eidx(pidx(p), IntLit(i)))))
+		}
+		return av
+	}
 	if s, ok := u.structOf(t); ok {
 		sv := &StructVal{T: t}
 		for i := 0; i < s.NumFields(); i++ {
@@ -518,6 +556,14 @@ func (u *Unit) assumeBorn(st *State, v *Term) {
 }
 
 func (u *Unit) storeVal(st *State, t types.Type, p *Term, v Val) {
+	if at, ok := u.smallArray(t); ok {
+		if av, isA := v.(*StructVal); isA && int64(len(av.Fields)) == at.Len() {
+			for i := int64(0); i < at.Len(); i++ {
+				u.storeVal(st, at.Elem(), mkptr(parr(p), Eidx(pidx(p), IntLit(i))), av.Fields[i])
+			}
+			return
+		}
+	}
 	if s, ok := u.structOf(t); ok {
 		sv, isS := v.(*StructVal)
 		if !isS {
